@@ -54,6 +54,8 @@ unsafe extern "C" {
     fn x_get(rep: *mut u8) -> i32;
     #[link_name = "t:r/exp#take"]
     fn x_take(h: i32) -> i32;
+    #[link_name = "t:r/exp#unwrap"]
+    fn x_unwrap(h: i32) -> i32;
     #[link_name = "t:r/exp#look"]
     fn x_look(rep: i32) -> i32;
     #[link_name = "t:r/exp#make"]
@@ -211,6 +213,17 @@ impl Guest for Impl {
         log!(json!({"ev": "x.seen", "id": m.id, "f": "take"}));
         m.v
     }
+    fn unwrap(v: X) -> u32 {
+        // the guest takes the Rust value out of the handle: from here on it is an ordinary value of the guest's
+        let id = v.get::<MyX>().id;
+        log!(json!({"ev": "x.seen", "id": id, "f": "unwrap"}));
+        log!(json!({"ev": "x.unwrap-begin", "id": id}));
+        let m: MyX = v.into_inner();
+        log!(json!({"ev": "x.unwrap-end", "id": id}));
+        let r = m.v;
+        drop(m);
+        r
+    }
     fn look(v: XBorrow<'_>) -> u32 {
         let m: &MyX = v.get();
         log!(json!({"ev": "x.seen", "id": m.id, "f": "look"}));
@@ -309,6 +322,13 @@ fn run_history(k: usize, ops: &[Value]) {
                 let h = xs.remove(&key).unwrap();
                 log!(json!({"ev": "x.give", "h": h}));
                 unsafe { x_take(h as i32) };
+                vhost::track(false);
+                log!(json!({"ev": "x.give-end", "h": h}));
+            }
+            "xunwrap" => {
+                let h = xs.remove(&key).unwrap();
+                log!(json!({"ev": "x.give", "h": h}));
+                unsafe { x_unwrap(h as i32) };
                 vhost::track(false);
                 log!(json!({"ev": "x.give-end", "h": h}));
             }
